@@ -210,3 +210,32 @@ def back_to_back_cases():
                            irr=irr, fm=None, ffm=None, gw=None, co2=None, weather=w)
                 out.append(("back2back-%s-off%d-m%d" % (crop, int(off), irr["method"]), cfg))
     return out
+
+
+class ConfiguredCrop:
+    """Crop parameters as the USER configured them: the override in the generated configuration, else the value of
+    the documented catalogue (aquacrop.entities.crops.crop_params) -- not the model's own, possibly altered, copies."""
+
+    DEFAULTS = {"YldWC": 0.0}
+
+    def __init__(self, cfg):
+        from ..config import crop_params
+
+        self._cat = crop_params[cfg["crop"]["name"]]
+        self._ov = cfg["crop"].get("overrides", {})
+
+    def get(self, key):
+        if key in self._ov:
+            return self._ov[key]
+        v = self._cat.get(key, self.DEFAULTS.get(key))
+        return self.DEFAULTS.get(key) if v is None else v
+
+
+def configured_irrigation(cfg):
+    """Irrigation settings as configured (documented defaults where not given)."""
+    r = dict(cfg.get("irr") or {"method": 0})
+    m = int(r.get("method", 0))
+    out = dict(method=m, AppEff=float(r.get("AppEff", 100.0)), MaxIrr=float(r.get("MaxIrr", 25.0)), MaxIrrSeason=float(r.get("MaxIrrSeason", 10000.0)),
+               SMT=[float(x) for x in r.get("SMT", [100.0] * 4 if m == 1 else [0.0] * 4)], IrrInterval=int(r.get("IrrInterval", 3 if m == 2 else 0)),
+               depth=float(r.get("depth", 0.0)), NetIrrSMT=float(r.get("NetIrrSMT", 80.0)), WetSurf=float(r.get("WetSurf", 100.0)))
+    return out
